@@ -27,6 +27,12 @@ ensures   (1)  stress (1 (x) t) + bound_stress u_b = 0 on every face;
                solution" is not defined there; such cases are outside the hypothesis of (2b) (they still must pass (1), (2a))
                and are counted in the evidence (cases_with_singular_system_solve_clause_not_applicable).
           All clauses are linear in t: the basis {e_x, e_y(, e_z)} covers all translations.
+          (H)  call histories: "for any grid" holds for every discretize call, not only the first call of a new pp.Tpsa object.  (1), (2a),
+               (2b) are evaluated after EVERY call of sequences that share one pp.Tpsa object: grids of equal dimension / cell count /
+               face count but different connectivity (n permuted) in both orders, one topology with changed geometry, grids of
+               different size / kind / dimension, one grid and data dictionary rediscretized with changed Lame pair and layout, and the
+               identical call repeated with the same argument objects.  The oracle is the translation; an all-fresh control run only
+               selects the obligation name (history dependence vs. plain clause).
 
 Detection power (scratch copy, one mutant at a time, POREPY_SRC=<copy>): see MUTANTS below.
 """
@@ -38,12 +44,16 @@ META = {
     "technique": "run-time contract sweep (bounded stand-in for deduction): postconditions of the real Tpsa.discretize and of the system "
                  "assembled as documented in the Tpsa class docstring, on enumerated grids x Lame parameters x Dirichlet/mixed layouts "
                  "(face-wise Dirichlet/Neumann mixes and component-wise mixed 'rolling' faces); translation basis covers all "
-                 "translations by linearity",
+                 "translations by linearity; the same clauses after every call of call histories that reuse one pp.Tpsa object (grids of equal "
+                 "cell/face counts and different connectivity, changed geometry, other sizes/dimensions, rediscretization with changed "
+                 "parameters in one data dictionary, repeated call with the same argument objects)",
     "text": "Bounded assurance only on the enumerated family. Deduction not applicable. Mixed boundary data covers face-wise "
             "Dirichlet/Neumann mixes and component-wise mixes in the coordinate basis (Dirichlet in some directions, zero-traction "
             "Neumann in the others on one face); in the quick tier each component-wise layout class runs with one Lame pair per grid "
-            "only. Robin conditions, a non-default BoundaryConditionVectorial.basis, Cosserat parameter and heterogeneous Lame "
-            "parameters are not covered (outside the statement).",
+            "only. Reuse of one Tpsa object over a sequence of grids / parameter sets is covered by enumerated call histories (<= 7 calls per "
+            "object, one seeded Lame pair and layout per call); sharing one object between different keywords or threads is not. Robin "
+            "conditions, a non-default BoundaryConditionVectorial.basis, Cosserat parameter and heterogeneous Lame parameters are not "
+            "covered (outside the statement).",
     "note": "the assembly recipe (block structure, signs, accumulation |cell|/mu, |cell|/lambda) is taken from the Tpsa class docstring / "
             "the TPSA paper and is part of the trusted specification; dense numpy solve",
 }
@@ -58,6 +68,8 @@ MUTANTS = """
        (Neumann components of a rolling face lose their cell contribution)   caught by (2a) on comp-one / comp-roll / comp-mix only
   M6 tpsa.py _vector_laplace_matrices: ``trm_bnd[dir_faces] = trm_nd[dir_faces]`` -> only on faces with *all* components Dirichlet
        (Dirichlet component of a rolling face has no bound_stress coefficient)  caught by (1) and (2a) on comp-one / comp-roll / comp-mix only
+  M7 tpsa.py discretize: the bookkeeping of _create_numbering kept on the Tpsa object keyed by (dim, num_cells, num_faces) and reused
+       (second grid with the same counts gets the connectivity of the first)          caught by (H) on the equal-counts histories only
 """
 
 import warnings
@@ -68,6 +80,7 @@ KW = "mechanics"
 O_STRESS = "Tpsa.discretize: uniform displacement with matching boundary data gives zero stress on every face"
 O_SOLVE = "Tpsa.discretize: solved system returns the translation with zero rotation and zero solid pressure"
 O_RUN = "Tpsa.discretize: terminates without exception on an admissible input"
+O_HIST = "Tpsa.discretize: translation clauses on every call of a reused object"  # short: replay file names are cut at 120 characters
 
 
 def build_grid(pp, spec):
@@ -181,24 +194,36 @@ def parse_layout(layout, nd):
     return np.array([[c[i] == "d" for c in codes] for i in range(nd)], dtype=bool).reshape(nd, len(codes)), comp
 
 
-def evaluate(pp, spec, mu, lam, layout, info=None):
+def evaluate(pp, spec, mu, lam, layout, info=None, discr=None, g=None, data=None, args=None):
+    """Clauses (1), (2a), (2b) for one case.  By default everything is built afresh (new grid, new pp.Tpsa object, new data dictionary,
+    new parameter objects).  The call-history sweep passes objects of an earlier call instead: ``discr`` (a pp.Tpsa object that has
+    discretized other grids before), ``g`` / ``data`` (grid object and data dictionary of the previous call: rediscretization with
+    changed parameters) and ``args`` (the boundary-condition and stiffness objects of the previous call).  The objects used are
+    returned in ``info`` ('g', 'data', 'args')."""
     info = {} if info is None else info
     import scipy.sparse as sps
 
-    g = build_grid(pp, spec)
+    g = build_grid(pp, spec) if g is None else g
     nd, nf, nc = g.dim, g.num_faces, g.num_cells
     bf = g.get_all_boundary_faces()
     is_dir_b, comp = parse_layout(layout, nd)  # (nd, nb)
-    if comp:
-        # component-wise conditions are set the way the BoundaryConditionVectorial docstring prescribes: through is_dir / is_neu
-        bc = pp.BoundaryConditionVectorial(g, bf, ["dir"] * bf.size)
-        bc.is_dir[:, bf] = is_dir_b
-        bc.is_neu[:, bf] = ~is_dir_b
+    if args is not None:
+        bc, C = args
     else:
-        bc = pp.BoundaryConditionVectorial(g, bf, ["dir" if d else "neu" for d in is_dir_b[0]])
-    C = pp.FourthOrderTensor(mu * np.ones(nc), lam * np.ones(nc))
-    data = {pp.PARAMETERS: {KW: {"fourth_order_tensor": C, "bc": bc}}, pp.DISCRETIZATION_MATRICES: {KW: {}}}
-    discr = pp.Tpsa(KW)
+        if comp:
+            # component-wise conditions are set the way the BoundaryConditionVectorial docstring prescribes: through is_dir / is_neu
+            bc = pp.BoundaryConditionVectorial(g, bf, ["dir"] * bf.size)
+            bc.is_dir[:, bf] = is_dir_b
+            bc.is_neu[:, bf] = ~is_dir_b
+        else:
+            bc = pp.BoundaryConditionVectorial(g, bf, ["dir" if d else "neu" for d in is_dir_b[0]])
+        C = pp.FourthOrderTensor(mu * np.ones(nc), lam * np.ones(nc))
+    if data is None:
+        data = {pp.PARAMETERS: {KW: {"fourth_order_tensor": C, "bc": bc}}, pp.DISCRETIZATION_MATRICES: {KW: {}}}
+    else:  # rediscretization: the parameters of the existing dictionary are replaced, the matrices of the earlier call are still there
+        data[pp.PARAMETERS][KW].update({"fourth_order_tensor": C, "bc": bc})
+    discr = pp.Tpsa(KW) if discr is None else discr
+    info.update({"g": g, "data": data, "args": (bc, C)})
     try:
         with warnings.catch_warnings():
             warnings.simplefilter("ignore")
@@ -276,6 +301,120 @@ def _signature(spec, lname):
     return f"{len(spec['n'])}d {spec['kind']} {pert} bc={lname}"
 
 
+# ---------------------------------------------------------------------------------------------------------------- call histories
+# "For any grid": the property is a statement about every discretize call, not only about the first call of a new pp.Tpsa object.  A
+# discretization object is routinely used for several subdomains / a sequence of meshes / a rediscretization with changed parameters,
+# so the clauses are also evaluated on every grid of a call sequence that shares ONE pp.Tpsa object.
+_A2 = [[1, 0.4, 0], [0.2, 1.1, 0], [0, 0, 1]]
+_A3 = [[1, 0.3, 0.1], [0, 1, 0.2], [0.1, 0, 1.2]]
+
+
+def history_specs(pp, rng, quick):
+    """-> list of (class name, reuse mode, [grid spec, ...]).  Classes:
+    equal-counts    grids of equal dimension, cell count and face count but different connectivity (n permuted), in both orders and
+                    returning to the first grid; every grid unperturbed / node-perturbed / affine image (seeded)
+    same-topology   one topology with different geometry (other extent, perturbed, affine image)
+    sizes-dims      grids of different size, kind and dimension (2-D -> 3-D -> 2-D)
+    rediscretize    one grid object and one data dictionary, Lame parameters and boundary layout changed between the calls
+    same-arguments  the identical call repeated with the same grid, data dictionary, boundary-condition and stiffness objects"""
+    def S(kind, n, phys=None):
+        phys = [rng.choice((1.0, 1.5, 2.0)) for _ in n] if phys is None else phys
+        return {"kind": kind, "n": list(n), "phys": [float(p) for p in phys], "nodes": None, "pert": 0}
+
+    def V(s):  # seeded geometric variant of the same topology
+        r = rng.random()
+        if r < 0.4:
+            return s
+        if r < 0.8:
+            return perturbed(pp, rng, s, rng.choice((0.1, 0.2))) or s
+        return sheared(pp, s, _A3 if len(s["n"]) == 3 else _A2)
+
+    pairs = [("cart", [2, 3], [3, 2]), ("tri", [2, 3], [3, 2]), ("cart", [1, 2, 3], [3, 1, 2]), ("tet", [1, 1, 2], [2, 1, 1])]
+    if not quick:
+        pairs += [("cart", [1, 4], [4, 1]), ("cart", [2, 5], [5, 2]), ("cart", [3, 4], [4, 3]), ("tri", [1, 3], [3, 1]),
+                  ("tri", [2, 4], [4, 2]), ("cart", [2, 2, 3], [3, 2, 2]), ("cart", [1, 2, 3], [2, 3, 1]), ("cart", [1, 1, 2], [2, 1, 1]),
+                  ("tet", [1, 2, 2], [2, 2, 1]), ("tet", [1, 2, 1], [1, 1, 2])]
+    out = []
+    for ip, (kind, na, nb) in enumerate(pairs):
+        A, B = S(kind, na), S(kind, nb)
+        if quick:  # alternating: A -> B (unperturbed) / B -> A -> B (seeded variants)
+            out.append(("equal-counts", "none", [A, B] if ip % 2 == 0 else [V(B), V(A), V(B)]))
+        else:
+            out += [("equal-counts", "none", [A, B]), ("equal-counts", "none", [B, A]), ("equal-counts", "none", [V(A), V(B), V(A)]),
+                    ("equal-counts", "none", [V(B), V(A), V(B), V(A)])]
+    topo = [("cart", [3, 2]), ("tet", [1, 1, 2])] if quick else [("cart", [3, 2]), ("cart", [4, 4]), ("tri", [2, 2]), ("tri", [3, 2]),
+                                                                 ("cart", [2, 2, 2]), ("tet", [1, 1, 2]), ("tet", [2, 1, 1])]
+    for kind, n in topo:
+        s = S(kind, n)
+        out.append(("same-topology", "none", [s, perturbed(pp, rng, s, 0.2) or s, sheared(pp, s, _A3 if len(n) == 3 else _A2),
+                                             S(kind, n, [2.0 * p for p in s["phys"][::-1]])]))
+    out.append(("sizes-dims", "none", [S("cart", [3, 3]), V(S("cart", [4, 2])), S("cart", [2, 2, 2]), V(S("tri", [2, 2])), S("cart", [3, 3])]))
+    if not quick:
+        out.append(("sizes-dims", "none", [V(S("tet", [1, 1, 1])), S("cart", [1, 1]), V(S("tri", [3, 2])), V(S("cart", [2, 1, 2])),
+                                          V(S("tet", [2, 1, 1])), S("cart", [5, 4]), S("tet", [1, 1, 1])]))
+        out.append(("sizes-dims", "none", [S("cart", [5, 4]), S("cart", [2, 2]), V(S("cart", [3, 2, 2])), V(S("cart", [1, 1, 1])),
+                                          V(S("tri", [1, 1])), V(S("tri", [4, 3]))]))
+    for kind, n in ([("tri", [2, 2]), ("cart", [2, 1, 2])] if quick else [("cart", [3, 2]), ("tri", [2, 2]), ("tri", [3, 2]),
+                                                                         ("cart", [2, 1, 2]), ("tet", [1, 1, 2])]):
+        s = V(S(kind, n))
+        out.append(("rediscretize", "data", [s] * (3 if quick else 5)))
+        out.append(("same-arguments", "args", [s] * 2))
+    return out
+
+
+def history_steps(pp, rng, reuse, specs):
+    """Seeded Lame pair and boundary layout (any of the face-wise / component-wise classes of bc_layouts) for every call."""
+    steps = []
+    for k, s in enumerate(specs):
+        g = build_grid(pp, s)
+        if not cells_valid(g):
+            return None
+        if reuse == "args" and steps:
+            steps.append(dict(steps[-1], reuse="args"))
+            continue
+        lname, layout = rng.choice(bc_layouts(rng, g.get_all_boundary_faces().size, 1, nd=g.dim))
+        _, mu, lam = rng.choice(LAME)
+        steps.append({"grid": s, "mu": mu, "lam": lam, "layout": layout, "lname": lname, "reuse": reuse if k else "none"})
+    return steps
+
+
+def evaluate_history(pp, steps):
+    """All calls of ``steps`` with ONE pp.Tpsa object, in this order; clauses (1), (2a), (2b) after every call.
+    -> per step (list of (obligation, detail), info)."""
+    discr = pp.Tpsa(KW)
+    prev, out = None, []
+    for st in steps:
+        kw, info = {}, {}
+        if st["reuse"] in ("data", "args") and prev is not None and prev[0]["grid"] == st["grid"] and "g" in prev[1]:
+            kw = {"g": prev[1]["g"], "data": prev[1]["data"]}
+            if st["reuse"] == "args" and all(prev[0][k] == st[k] for k in ("mu", "lam", "layout")):
+                kw["args"] = prev[1]["args"]
+        res = evaluate(pp, st["grid"], st["mu"], st["lam"], st["layout"], info, discr=discr, **kw)
+        out.append((res, info))
+        prev = (st, info)
+    return out
+
+
+def _grid_name(spec):
+    pert = "" if spec["pert"] == 0 else (" affine" if spec["pert"] == "affine" else f" perturbed {spec['pert']}")
+    return f"{spec['kind']}{spec['n']}x{spec['phys']}{pert}"
+
+
+def history_violations(pp, steps, i, res):
+    """Violated clauses ``res`` of call ``i`` of the history -> (obligation, detail) list.  The oracle is the translation in both runs; the
+    all-fresh control run only decides under which obligation the failure is reported (history dependence or the plain clause)."""
+    st = steps[i]
+    fresh = evaluate(pp, st["grid"], st["mu"], st["lam"], st["layout"])
+    if fresh:
+        return res  # fails without any history as well: the plain clauses
+    before = " -> ".join(_grid_name(s["grid"]) for s in steps[:i]) or "-"
+    how = {"none": "new grid object, new data dictionary", "data": "grid object and data dictionary of the previous call, parameters replaced",
+           "args": "grid object, data dictionary, bc and stiffness objects of the previous call"}[st["reuse"]]
+    return [(O_HIST, f"call {i + 1} of one pp.Tpsa object on {_grid_name(st['grid'])} ({how}; earlier calls: {before}) violates '{ob}': "
+                     f"{detail}; the same case with a fresh pp.Tpsa object and fresh arguments satisfies all clauses")
+            for ob, detail in res]
+
+
 def run(rep):
     import os
 
@@ -333,11 +472,55 @@ def run(rep):
         rep.extra["cases_with_component_wise_mixed_faces"] = n_comp
         rep.extra["cases_with_component_wise_mixed_faces_and_regular_system"] = n_comp_regular
 
+    with rep.sweep(
+        "tpsa translation invariance on every call of a reused Tpsa object",
+        rule="call histories of ONE pp.Tpsa object, clauses (1), (2a), (2b) evaluated after every call against the translation: "
+             "{equal-counts: grids of equal dimension / cell count / face count and different connectivity (Cartesian, triangle, hexahedral, "
+             "tetrahedral with permuted n) in both orders and returning to the first grid | same-topology: one topology, extent changed / "
+             "nodes perturbed / affine image | sizes-dims: grids of different size, kind and dimension (2-D -> 3-D -> 2-D) | rediscretize: one "
+             "grid object and data dictionary, Lame pair and boundary layout replaced between the calls | same-arguments: identical call "
+             "repeated with the same grid, dictionary, bc and stiffness objects}; per call a seeded Lame pair and a seeded layout from all "
+             "face-wise / component-wise layout classes; non-trivial = second or later call",
+        bound=("4 equal-count pairs, 2 topologies, 1 size sequence, 2 rediscretized grids; <= 5 calls per object" if quick else
+               "14 equal-count pairs x 4 orders, 7 topologies, 3 size sequences, 5 rediscretized grids, each history with 3 seeded "
+               "parameter draws; <= 7 calls per object") + "; grids <= 5x4 cells / 3x2x2 hexahedra / 24 tetrahedra",
+        exhaustive=False,
+    ) as sw:
+        n_hist = n_later = 0
+        for ih, (hname, reuse, specs) in enumerate(history_specs(pp, rng, quick)):
+            for rep_i in range(1 if quick else 3):
+                steps = history_steps(pp, rng, reuse, specs)
+                if steps is None:
+                    sw.skip()
+                    continue
+                n_hist += 1
+                clean = [{k: v for k, v in st.items() if k != "lname"} for st in steps]
+                for i, (res, info) in enumerate(evaluate_history(pp, clean)):
+                    st = steps[i]
+                    n_later += i > 0
+                    sw.case((hname, ih, rep_i, i, st["mu"], st["lam"], st["layout"]), nontrivial=i > 0,
+                            sample={"history": hname, "call": i + 1, "grids": [_grid_name(s["grid"]) for s in steps[:i + 1]],
+                                    "lame": [st["mu"], st["lam"]], "layout": st["layout"], "reuse": st["reuse"],
+                                    "system_regular": info.get("regular")})
+                    if res:
+                        for ob, detail in history_violations(pp, clean, i, res):
+                            rep.violation(ob, f"{hname} call {i + 1}: " + _signature(st["grid"], st["lname"]),
+                                          inputs={"history": clean[:i + 1]}, detail=detail, confirmed=True)
+        rep.extra["call_histories_of_one_tpsa_object"] = n_hist
+        rep.extra["cases_on_second_or_later_call_of_a_tpsa_object"] = n_later
+
 
 def replay(data):
     import porepy as pp
 
     inp = data["inputs"]
+    if "history" in inp:
+        steps = inp["history"]
+        res = evaluate_history(pp, steps)[-1][0]
+        bad = history_violations(pp, steps, len(steps) - 1, res) if res else []
+        for b in bad:
+            print("replay:", b)
+        return bool(bad)
     bad = evaluate(pp, inp["grid"], inp["mu"], inp["lam"], inp["layout"])
     for b in bad:
         print("replay:", b)
